@@ -1213,6 +1213,20 @@ HASH_TWINS = [
     ('adler32', bytes.fromhex('a195a45c672ef6df'), bytes.fromhex('b30ba878d4fd4ba6')),
     ('rotl5_xor', bytes.fromhex('c5dc526f766ce7f6'), bytes.fromhex('207d77cc142cdc96')),
 ]
+# 64-bit hashes (tools/hash_twins64.rs, a distinguished-point collision search): FNV-1a-64 of the secret, and what
+# std::collections::hash_map::DefaultHasher::new() (SipHash-1-3, zero key, this toolchain) gives for the secret written as
+# octets and hashed as a slice (length-prefixed)
+HASH_TWINS += [
+    ('fnv1a64', bytes.fromhex('762c5bb094021908'), bytes.fromhex('2d7f6b4a4606dab7')),
+    ('defaulthasher_write', bytes.fromhex('668dfbe58c0c1d27'), bytes.fromhex('9edd7f9e53d1912a')),
+    ('defaulthasher_hash_slice', bytes.fromhex('b2e9907a3c7b8fea'), bytes.fromhex('4fc6c5d124911db3')),
+]
+# ... and for the whole key material of the first block, attribute type + secret + random vector, with attribute type 7
+# (Host Name) and the random vector 01 02 03 04: (kind, random vector, secret, twin)
+MATERIAL_TWINS = [
+    ('HostName', bytes.fromhex('01020304'), bytes.fromhex('2e11a2729dcdbafb'), bytes.fromhex('ad4ad0dcca0a2d01')),   # DefaultHasher, written as octets
+    ('HostName', bytes.fromhex('01020304'), bytes.fromhex('8673393be5b7738b'), bytes.fromhex('13351bce92052fc3')),   # DefaultHasher, hashed as a slice
+]
 TWIN_OF = {}
 for _n, _a, _b in HASH_TWINS:
     TWIN_OF[_a] = _b
@@ -1258,6 +1272,11 @@ def weak_twin(rng, s):
 def with_secret_twins(rng, vals, args):
     """now and then the same value is hidden again, right after, under a near-twin of the secret (same thread, adjacent calls)"""
     v2, a2 = [], []
+    for (k, rv, sa, sb) in MATERIAL_TWINS:
+        v = rand_avp(rng, k, maxpay=50)
+        a = hide_args(rng)
+        for sx in (sa, sb):
+            v2.append(v); a2.append((sx, rv, a[2], a[3]))
     for v, a in zip(vals, args):
         v2.append(v); a2.append(a)
         if (rng.random() < 0.1 or a[0] in TWIN_OF) and a[0]:
@@ -1306,9 +1325,11 @@ def run_c11(ctx):
         for i in range(len(vals)):
             if i not in set(ok):
                 rep.fail('hide did not return a Hidden AVP', case=h[i][:400], executor=w, result=rh[w][i][:200])
-        rv = ['REVEAL\t%s\t%s\t%s' % (rh[w][i][3:], args[i][0].hex(), args[i][1].hex()) for i in ok]
+        # the receiver reveals in another order than the sender hid (state left by one call must not be what makes the next work)
+        back = list(reversed(ok))
+        rv = ['REVEAL\t%s\t%s\t%s' % (rh[w][i][3:], args[i][0].hex(), args[i][1].hex()) for i in back]
         rr = run_compare(ctx, rep, rv, ['reveal'] * len(rv), lambda c, r: r, which=(w,))
-        for k, i in enumerate(ok):
+        for k, i in enumerate(back):
             if rr[w][k] != 'Ok ' + vals[i]:
                 rep.fail('reveal(hide(a)) != a', case=h[i][:400], executor=w, hidden=rh[w][i][:200], revealed=rr[w][k][:300])
         # over the wire
@@ -2048,6 +2069,14 @@ def pure_workload(ctx, n):
         ct = rbytes(rng, 48)
         for sx in (sa, sb):
             cases.append('REVEAL\tHidden(7,%s)\t%s\t%s' % (ct.hex(), sx.hex(), a[1].hex()))
+    for (k, rv, sa, sb) in MATERIAL_TWINS:
+        v = rand_avp(rng, k, maxpay=50)
+        a = hide_args(rng)
+        ct = rbytes(rng, 32)
+        for sx in (sa, sb):
+            cases.append('HIDE\t%s\t%s\t%s\t%s\t%s' % (v, sx.hex(), rv.hex(), a[2].hex(), a[3].hex()))
+        for sx in (sa, sb):
+            cases.append('REVEAL\tHidden(%d,%s)\t%s\t%s' % (KINDS[k][0], ct.hex(), sx.hex(), rv.hex()))
     # hidden state keyed on part of the arguments would show between calls that share that part
     s0, rv0 = b'shared-secret', b'\x01\x02\x03\x04'
     for k in rng.sample(KIND_LIST, 12):
